@@ -303,6 +303,17 @@ class Evaluator:
                 return base.match(*args, **kw)
             if base is None:
                 raise Crash(f'method .{f.attr} of None (`{src(n)}`)')
+            if isinstance(base, Rx) and f.attr in ('search', 'match', 'fullmatch'):
+                # a regex constant of the source applied to a known string
+                import re as _re
+                args = [self.ev(a, env) for a in n.args]
+                if len(args) != 1 or n.keywords:
+                    raise Unsupported(f'regex call {src(n)[:40]}')
+                if args[0] is UNKNOWN:
+                    raise Unknown('text of the token')
+                if not isinstance(args[0], str):
+                    raise Unsupported('regex subject')
+                return getattr(_re.compile(base.pattern, base.flags), f.attr)(args[0])
             if isinstance(base, Obj):
                 args = [self.ev(a, env) for a in n.args]
                 if callable(getattr(base, f.attr, None)):
